@@ -8,7 +8,7 @@
 -/
 import EnvVerif.Lemmas.InvLemmas
 namespace EnvVerif
-open Env
+open Env InvL
 
 section
 variable (h : Hash) (A : Aead) (Z : Deflate)
@@ -93,7 +93,7 @@ example : ∃ r, removeAssertion toyHash sNode sA1 = .ok r ∧ WF toyHash r := b
 
 theorem replaceAssertion_wf {e a b r : Env} (he : WF h e) (hb : WF h b)
     (hr : replaceAssertion h e a b = .ok r) : WF h r := by
-  obtain ⟨e', h1, h2⟩ := Res.bind_eq_ok.1 hr
+  obtain ⟨e', h1, h2⟩ := res_bind_eq_ok.1 hr
   exact addAssertionEnvelope_wf h (removeAssertion_wf h he h1) hb h2
 example : ∃ r, replaceAssertion toyHash sNode sA1 sA3 = .ok r ∧ WF toyHash r := by
   obtain ⟨r, hr⟩ := replaceAssertion_isOk toyHash sNode sA1 sA_slotOk.2.2
@@ -246,7 +246,7 @@ theorem compressSubject_wf {e r : Env} (he : WF h e) (hr : compressSubject h Z e
   unfold compressSubject at hr
   split at hr
   · injection hr with hr; subst hr; exact he
-  · obtain ⟨s, h1, h2⟩ := Res.bind_eq_ok.1 hr
+  · obtain ⟨s, h1, h2⟩ := res_bind_eq_ok.1 hr
     exact replaceSubject_wf h he (compress_wf h Z h1) h2
 example : ∃ r, compressSubject toyHash idDeflate sNode = .ok r ∧ WF toyHash r := by
   obtain ⟨r, hr⟩ := replaceSubject_isOk toyHash (e := sNode)
@@ -462,7 +462,7 @@ theorem uncompressSubject_wf {e r : Env} (he : WF h e) (hr : uncompressSubject h
     WF h r := by
   unfold uncompressSubject at hr
   split at hr
-  · obtain ⟨s, h1, h2⟩ := Res.bind_eq_ok.1 hr
+  · obtain ⟨s, h1, h2⟩ := res_bind_eq_ok.1 hr
     have hs := uncompress_wf h Z h1
     split at h2
     · exact newNodeUnchecked_wf h hs ((WFList_iff h _).1 ((WF_node h _ _ _).1 he).2.1) h2
@@ -505,7 +505,7 @@ example : ∃ r, decryptSubject toyHash idAead [1] sEnc = .ok r ∧ WF toyHash r
 
 theorem decryptWhole_wf {key : Bytes} {e r : Env} (he : WF h e)
     (hr : decryptWhole h A key e = .ok r) : WF h r := by
-  obtain ⟨x, h1, h2⟩ := Res.bind_eq_ok.1 hr
+  obtain ⟨x, h1, h2⟩ := res_bind_eq_ok.1 hr
   exact unwrap_wf h (decryptSubject_wf h A he h1) h2
 example : ∃ r, decryptWhole toyHash idAead [1] sEncW = .ok r ∧ WF toyHash r := by
   obtain ⟨r, hr⟩ := sDecryptWhole_ok
